@@ -40,8 +40,9 @@ def main():
     if not ok:
         res.broken_ties.append('translator: ' + log[-1500:])
     # 2. prove
-    forb = vlib.scan_forbidden()
+    forb = vlib.scan_forbidden(pid)
     res.proof['forbidden'] = forb
+    res.extra['coq_files_scanned'] = vlib.coq_deps('Properties_%s.v' % pid)
     ok, log = vlib.coq_make(['Properties_%s.vo' % pid])
     res.proof['ok'] = ok
     res.proof['log'] = log
